@@ -228,6 +228,17 @@ func (env *SpecEnv) ident(name string) (SpecVal, error) {
 			if c, ok := obj.(*types.Const); ok {
 				return env.constVal(c), nil
 			}
+			// a package-level variable
+			if _, ok := obj.(*types.Var); ok {
+				if sp := x.V.Pkgs[env.pkg.Path()]; sp != nil {
+					if g, ok := sp.Members[name].(*ssa.Global); ok {
+						gv := x.val(g)
+						if gv.Loc != nil {
+							return SpecVal{Cell: gv.Loc, Go: g.Type().(*types.Pointer).Elem()}, nil
+						}
+					}
+				}
+			}
 		}
 		for _, imp := range env.pkg.Imports() {
 			if imp.Name() == name {
@@ -251,6 +262,29 @@ func (env *SpecEnv) ident(name string) (SpecVal, error) {
 // resolveType resolves "*pkg.Type", "pkg.Type" or "*Type" against the package of the
 // function under contract and its imports.
 func (env *SpecEnv) resolveType(s string) (types.Type, error) {
+	if strings.Contains(s, "[") {
+		// an instantiated generic type: look it up among the types of the values of the
+		// function under contract, written relative to its package (other packages by name)
+		if env.x != nil && env.x.root().fn != nil {
+			fn := env.x.root().fn
+			qual := func(p *types.Package) string {
+				if env.pkg != nil && p == env.pkg {
+					return ""
+				}
+				return p.Name()
+			}
+			for _, b := range fn.Blocks {
+				for _, ins := range b.Instrs {
+					if v, ok := ins.(ssa.Value); ok && v.Type() != nil {
+						if types.TypeString(v.Type(), qual) == s {
+							return v.Type(), nil
+						}
+					}
+				}
+			}
+		}
+		return nil, fmt.Errorf("type %s does not occur in the function under contract", s)
+	}
 	ptr := strings.HasPrefix(s, "*")
 	n := strings.TrimPrefix(s, "*")
 	pkg := env.pkg
